@@ -100,14 +100,21 @@ ComputeNext == /\ phase = "compute" /\ \A idx \in Cells(edges) : Len(CellRes(idx
 ComputeStop == /\ phase = "compute" /\ \E idx \in Cells(edges) : Len(CellRes(idx)) <= Len(out)
                /\ phase' = IF out = <<>> THEN "done" ELSE "iter"
                /\ UNCHANGED <<sc, pos, cells, last, hctx, vctx, out, it>>
-\* IterateBins.run over the first histogram: itertools.product over the cell indices
-IterNext == /\ phase = "iter" /\ Len(it) < Len(CellSeq(edges))
+\* IterateBins.run over the first histogram: itertools.product over the cell indices.  Every yielded
+\* value carries, as context.bins, its own fresh copy of the histogram's context (touched = 0).  The
+\* consumer writes into that copy (Mutate) before it pulls the next cell.
+LastTouched == IF it = <<>> THEN TRUE ELSE it[Len(it)].touched # 0
+IterNext == /\ phase = "iter" /\ Len(it) < Len(CellSeq(edges)) /\ LastTouched
             /\ LET idx == CellSeq(edges)[Len(it) + 1] IN
-               it' = Append(it, [idx |-> idx, e |-> CellEdges(idx, edges), content |-> out[1][idx]])
+               it' = Append(it, [idx |-> idx, e |-> CellEdges(idx, edges), content |-> out[1][idx],
+                                 bins |-> hctx, touched |-> 0])               \* copy.deepcopy(hist_context)
             /\ UNCHANGED <<sc, pos, cells, last, hctx, vctx, phase, out>>
-IterEnd == /\ phase = "iter" /\ Len(it) = Len(CellSeq(edges))
+Mutate == /\ phase = "iter" /\ it # <<>> /\ ~LastTouched
+          /\ it' = [it EXCEPT ![Len(it)].touched = Len(it)]                  \* context["bins"]["touched"] = n
+          /\ UNCHANGED <<sc, pos, cells, last, hctx, vctx, phase, out>>
+IterEnd == /\ phase = "iter" /\ Len(it) = Len(CellSeq(edges)) /\ LastTouched
            /\ phase' = "done" /\ UNCHANGED <<sc, pos, cells, last, hctx, vctx, out, it>>
-Next == FillInside \/ FillUnderflow \/ FillOverflow \/ StartCompute \/ ComputeNext \/ ComputeStop \/ IterNext \/ IterEnd
+Next == FillInside \/ FillUnderflow \/ FillOverflow \/ StartCompute \/ ComputeNext \/ ComputeStop \/ IterNext \/ Mutate \/ IterEnd
 Spec == Init /\ [][Next]_vars
 Done == phase = "done"
 
@@ -147,15 +154,21 @@ FlowContexts == /\ phase # "fill" => vctx = FlowCtxSem(sc.kind, edges, flow)
                 /\ \A i \in 1..Len(flow) : vctx[i].src = ArrivingCtx(flow, i).src /\ (i > pos => vctx[i] = ArrivingCtx(flow, i))
 \* IterateBins: every cell once, with its own edges and content
 IterOnceEach == (phase = "done" /\ out # <<>>) =>
-                  /\ it = IterSem(out[1], edges)
+                  /\ [n \in 1..Len(it) |-> [idx |-> it[n].idx, e |-> it[n].e, content |-> it[n].content]] = IterSem(out[1], edges)
                   /\ Len(it) = Cardinality(Cells(edges))
                   /\ {it[n].idx : n \in 1..Len(it)} = Cells(edges)
                   /\ \A n \in 1..Len(it) : it[n].content = out[1][it[n].idx]
                                            /\ \A d \in 1..Len(edges) : it[n].e[d] = <<edges[d][it[n].idx[d]], edges[d][it[n].idx[d] + 1]>>
+\* every cell's context.bins is its own: what the consumer writes into one is seen in no other, and the
+\* histogram's context stays as it was
+OwnBinsContext == \A n \in 1..Len(it) : it[n].touched \in {0, n} /\ it[n].bins = hctx
+MutateIsLocal == [][(phase = "iter" /\ Len(it') = Len(it) /\ it' # it) =>
+                      (\A n \in 1..(Len(it) - 1) : it'[n] = it[n]) /\ hctx' = hctx]_vars
+FreshWhenYielded == [][(Len(it') = Len(it) + 1) => it'[Len(it')].touched = 0 /\ it'[Len(it')].bins = hctx]_vars
 \* MapBins: same cells, every cell the mapping of the corresponding cell (as many histograms as the
 \* shortest per-cell result)
 MapShape == (phase = "done" /\ out # <<>>) =>
-              \A m \in {"tag", "dup", "drop", "seen"} :
+              \A m \in {"tag", "dup", "drop", "seen", "src"} :
                 LET ms == MapSem(m, out[1], edges) IN
                 \A k \in 1..Len(ms) : /\ DOMAIN ms[k] = DOMAIN out[1]
                                       /\ \A idx \in Cells(edges) : ms[k][idx] = MapRes(m, out[1][idx])[k]
@@ -170,5 +183,5 @@ Emitted == Done => PrintT(ToJson([
    hists |-> NestAll(out), last |-> last, hctx |-> hctx, vctx |-> vctx,
    iter |-> it,
    maps |-> IF out = <<>> THEN <<>>
-            ELSE [m \in {"tag", "dup", "drop", "seen"} |-> NestAll(MapSem(m, out[1], edges))]]))
+            ELSE [m \in {"tag", "dup", "drop", "seen", "src"} |-> NestAll(MapSem(m, out[1], edges))]]))
 =============================================================================
